@@ -117,3 +117,20 @@ contract(
     setup=DB + ["data = b'\\xa0\\x02\\x34\\x12' + image"],
     ensures=["result == (spec.logix.udt_view(8, [('x', 0, 'DINT'), ('y', 6, 'INT')], {'flag': (4, 3)}, set(), image), 'MyUdt')",
              "list(result[0]) == ['x', 'flag', 'y']"], props=["C01"])
+
+# a bit number beyond the width of the addressed integer is an index out of range: it is rejected when the request is parsed
+contract(
+    id="request.parse.bit.range", func=LD + "._parse_tag_request", call="d._parse_tag_request(tag, rw)",
+    bind={"case": ["('d', 32)", "('arr[1]', 16)", "('u.x', 32)", "('u.y', 16)", "('arr', 16)"], "rw": ["'r'", "'w'"]},
+    params={"b": P.numeral(0, 10**6)}, setup=DB + ["tag = case[0] + '.' + b"],
+    ensures=["int(b) < case[1]", "result['bit'] == int(b)", "result['plc_tag'] == case[0]", "result['bool_elements'] is None"],
+    raises_only=["pycomm3.exceptions.RequestError"], ensures_exc=["int(b) >= case[1]"], props=["C03", "C02", "C01"])
+# a BOOL-array write covers whole DWORDs only: a count that is not a multiple of 32 cannot be written without touching
+# other elements, so it is rejected (like an index that is not a multiple of 32)
+contract(
+    id="encode_value.boolarray.count", func="pycomm3.logix_driver.encode_value", call="pycomm3.logix_driver.encode_value(pt)",
+    bind={"n": ["2", "31", "33", "40", "63", "64", "96"]}, params={"vals": P.list(P.bool(), 96)},
+    setup=DB + ["pt = {'value': vals[:n], 'elements': (n + 31) // 32, 'tag_info': tags['ba'], 'bool_elements': n, 'bit': 0}"],
+    ensures=["n % 32 == 0", "result == b''.join(spec.cip_codec.encode_bits('DWORD', vals[32 * i:32 * i + 32]) for i in range(n // 32))",
+             "pt['elements'] == n // 32"],
+    raises_only=["pycomm3.exceptions.RequestError"], ensures_exc=["n % 32 != 0"], props=["C02", "C03"])
